@@ -9,6 +9,11 @@
 //!  (c) `perm`    permuted projects (definitions shuffled inside files, moved across schema files, files renamed so
 //!                that the glob order changes): same verdict, and every declaration file parses (`nvh::tsparse`) to the
 //!                same declarations modulo declaration order / union member order / object field order;
+//!  (c'') `dup-names` small schemas that define a type name twice across kinds / take a built-in scalar's name / define
+//!                a directive twice (fix 8cdbacf) are REJECTED by `check` in every order of their definitions (single
+//!                file and cut into files whose glob order varies), schemas that re-declare a built-in directive are
+//!                accepted in every order — the verdict only: WHICH definition the DuplicatedName diagnostic names
+//!                depends on the order, as for duplicate fragment names;
 //!  (d) `loader`  the real loader ABI (`loader_native`), required files loaded in different orders, many tasks per
 //!                process (every `HashMap::new()` gets a fresh `RandomState`): `emit_js` output must not vary.
 //! O failures: any byte difference between runs (signature = file kind + first differing construct), any
@@ -433,6 +438,10 @@ impl<'a> Ctx<'a> {
                 rb.stdout.chars().take(500).collect::<String>()), case);
             return rb.code;
         }
+        if how.starts_with("dup-names") {
+            // repeated names: the verdict is order-independent, the diagnostics name whichever definition comes later
+            return rb.code;
+        }
         if faulty {
             // same multiset of diagnostics (message texts)
             let msgs = |s: &str| -> Vec<String> {
@@ -607,6 +616,60 @@ impl<'a> Ctx<'a> {
         self.rep.nontrivial(&format!("targeted|{}", t.name));
         self.rep.count_n(&format!("targeted-orders:{}", t.name), orders.len() as u64 + multi as u64);
         base
+    }
+
+    // -----------------------------------------------------------------------------------------
+    // (c'') repeated names / re-declared built-in directives: the verdict of `check` in every order
+
+    fn dup_names_project(&mut self, rng: &mut Rng, t: &targeted::DupNames, max_orders: usize, multi: usize) {
+        let layout = |order: &[usize], cuts: &[usize], names: &[String]| -> Files {
+            let mut files: Files = vec![];
+            let mut start = 0;
+            for (k, cut) in cuts.iter().chain(std::iter::once(&order.len())).enumerate() {
+                let text: String = order[start..*cut].iter().map(|i| format!("{}\n", t.defs[*i])).collect();
+                if !text.is_empty() {
+                    files.push((names[k].clone(), text));
+                }
+                start = *cut;
+            }
+            files.push(("ops/q.graphql".to_string(), "query Q { __typename }\n".to_string()));
+            files.push((CONFIG.to_string(), targeted::TARGETED_CONFIG.to_string()));
+            files
+        };
+        let n = t.defs.len();
+        let mut orders = targeted::all_orders(n);
+        let identity = orders.remove(0);
+        if orders.len() > max_orders {
+            rng.shuffle(&mut orders);
+            let rev: Vec<usize> = (0..n).rev().collect();
+            orders.truncate(max_orders);
+            if !orders.contains(&rev) {
+                orders.push(rev);
+            }
+        }
+        let single = vec!["schema/schema.graphql".to_string()];
+        let base_files = layout(&identity, &[], &single);
+        // the expected verdict in the written order (2 fresh processes), then every other order against it
+        let base = self.repeat(&base_files, "check", 2, Some(!t.expect_rejected));
+        let how = format!("dup-names:{}", t.name);
+        for o in &orders {
+            let files = layout(o, &[], &single);
+            self.perm_compare(&how, &base_files, &files, &[], Some(&base), true);
+        }
+        let how_multi = format!("dup-names-multi-file:{}", t.name);
+        for _ in 0..multi {
+            let mut o = identity.clone();
+            rng.shuffle(&mut o);
+            let mut cuts: Vec<usize> = (0..1 + rng.below(2)).map(|_| 1 + rng.below(n - 1)).collect();
+            cuts.sort();
+            cuts.dedup();
+            let mut names: Vec<String> = (0..3).map(|i| format!("schema/{}{}.graphql", ["z", "a", "m", "k"][rng.below(4)], i)).collect();
+            rng.shuffle(&mut names);
+            let files = layout(&o, &cuts, &names);
+            self.perm_compare(&how_multi, &base_files, &files, &[], Some(&base), true);
+        }
+        self.rep.nontrivial(&format!("dup-names|{}", t.name));
+        self.rep.count_n(&format!("dup-names-orders:{}", t.name), orders.len() as u64 + multi as u64);
     }
 
     // -----------------------------------------------------------------------------------------
@@ -1173,6 +1236,11 @@ fn main() {
         if let (Some(a), Some(b)) = (find("iface-in-union"), find("iface-in-union-rev")) {
             let (fa, fb, ra) = (a.2.clone(), b.2.clone(), RunOut { code: a.1.code, stdout: a.1.stdout.clone(), stderr: a.1.stderr.clone(), files: a.1.files.clone() });
             ctx.perm_compare("union-member-order", &fa, &fb, &[("ops/q.graphql".to_string(), "ops/q.graphql".to_string())], Some(&ra), false);
+        }
+
+        // (c'') repeated names (rejected in every order) / re-declared built-in directives (accepted in every order)
+        for t in targeted::DUP_NAMES.iter() {
+            ctx.dup_names_project(&mut rng, t, args.budget(23, 119), args.budget(6, 24));
         }
 
         // (a') introspection-JSON schemas that omit several built-in scalars
